@@ -102,6 +102,8 @@ extern uint32_t sim_clock;
 extern int (*sim_usleep_hook)(unsigned int usec);	/* usleep() as called by posix/fibre_posix.c */		/* what time_now() returns */
 
 int sim_main(int argc, char **argv);
+/* inside very long regular phases: events are still hashed but not written to the trace text */
+void sim_trace_mute(bool on);
 
 /* Calls of the API under test name the function directly and pass argument expressions whose
  * evaluations are counted: an entry point (re)implemented as a macro must evaluate each argument
